@@ -529,7 +529,34 @@ def rule_R6(ctx):
                   "request line acceptance changed (three parts=%s, method check=%s)" % (three, meth), ctx.loc(rb, blk))
 
 
+def rule_adapters_pass_buffer(ctx):
+    """R1: the parser adapters (impls of the HttpParser trait) hand the reassembled bytes to the protocol processor as they are: whether a
+    stream is recognised (can_parse) and what is parsed never depends on a prefix, suffix or copy the adapter cut out itself"""
+    P = ctx.program
+    n = 0
+    for b in sorted(P.bodies.values(), key=lambda x: x.path):
+        if b.crate != "huginn_net_http" or b.kind != "AssocFn" or not (b.impl_trait or "").endswith("HttpParser") or b.name not in ("can_parse", "parse_request", "parse_response"):
+            continue
+        S = T.Slicer(b, P)
+        for blk, t in b.calls():
+            nm = callee_of(t)
+            if not nm.startswith("huginn_net") and "HttpProcessor" not in nm:
+                continue
+            if len(t["args"]) < 2:
+                continue
+            a = Q.call_args(b, S, blk, t)
+            n += 1
+            d = T.strip(a[1])
+            ok = d[0] == "param" and d[2] == "data"
+            ctx.check(ok, "R1", "adapter:%s::%s->%s" % ((b.impl_self or "").split("::")[-1], b.name, T.short(nm).split("::")[-1]),
+                      "the processor receives the buffer unchanged",
+                      "%s::%s passes %s to %s instead of the whole buffer: a well-formed message whose decisive bytes lie outside that part (a request line longer than the "
+                      "probe) is not recognised and silently not reported" % ((b.impl_self or "").split("::")[-1], b.name, T.pp(d)[:60], T.short(nm)), ctx.loc(b, blk))
+    ctx.floor("R1", "processor calls in HttpParser adapters", n, 6)
+
+
 def run(ctx):
+    rule_adapters_pass_buffer(ctx)
     rule_R1(ctx)
     rule_R2_R3(ctx)
     rule_R4(ctx)
